@@ -41,6 +41,10 @@ func vfH_C13_close() {
 	closed := 0
 	inner := &vfInner{}
 	b := Builder{TrackTraffic: vfrt.Choice("track-traffic", 2) == 1, OnClose: func() { closed++ }}
+	withOnClose := vfrt.Choice("without-close-callback", 2) == 0
+	if !withOnClose {
+		b.OnClose = nil // e.g. a dial with connection tracking switched off
+	}
 	nr := vfrt.Choice("reads", 3)
 	wantRx, wantTx := 0, 0
 	for i := 0; i < nr; i++ {
@@ -48,6 +52,10 @@ func vfH_C13_close() {
 		inner.rdata = append(inner.rdata, n)
 	}
 	c, obs := b.BuildWithObserver(inner)
+	vfrt.Assert(c != nil, "close/a-usable-connection-is-built-in-every-configuration")
+	if c == nil {
+		return
+	}
 	buf := make([]byte, 3)
 	for i := 0; i < nr; i++ {
 		n, _ := c.Read(buf)
@@ -67,7 +75,9 @@ func vfH_C13_close() {
 	} else {
 		vfrt.Reach("close-many")
 	}
-	vfrt.Assert(closed == 1, "close/reported-closed-exactly-once")
+	if withOnClose {
+		vfrt.Assert(closed == 1, "close/reported-closed-exactly-once")
+	}
 	vfrt.Assert(inner.closes >= 1, "close/inner-connection-closed")
 	if b.TrackTraffic {
 		vfrt.Assert(obs != nil && int(obs.Rx()) == wantRx && int(obs.Tx()) == wantTx, "close/byte-counters-equal-bytes-transferred")
